@@ -280,10 +280,16 @@ namespace sbepp
 
 // `begin` can be located past `end` (e.g. a group or entry of a truncated
 // message), `end - begin` is negative then and must not be treated as a size
-#define SBEPP_SIZE_CHECK(begin, end, offset, size) \
-    SBEPP_ASSERT(                                  \
-        (begin) && ((begin) <= (end))              \
-        && (((offset) + (size)) <= static_cast<std::size_t>((end) - (begin))))
+// `offset + size` is not computed directly because it can overflow for
+// untrusted `size` (e.g. 64-bit `<data>` length)
+#define SBEPP_SIZE_CHECK(begin, end, offset, size)                             \
+    SBEPP_ASSERT(                                                              \
+        (begin) && ((begin) <= (end))                                          \
+        && (static_cast<std::size_t>(size)                                     \
+            <= static_cast<std::size_t>((end) - (begin)))                      \
+        && (static_cast<std::size_t>(offset)                                   \
+            <= (static_cast<std::size_t>((end) - (begin))                      \
+                - static_cast<std::size_t>(size))))
 
 //! @brief The main `sbepp` namespace
 namespace sbepp
@@ -3489,8 +3495,8 @@ public:
         SBEPP_SIZE_CHECK(
             (*this)(addressof_tag{}),
             (*this)(end_ptr_tag{}),
-            0,
-            sizeof(size_type) + count);
+            sizeof(size_type),
+            count);
         set_primitive<E>((*this)(addressof_tag{}), count);
     }
 
@@ -3612,8 +3618,8 @@ public:
         SBEPP_SIZE_CHECK(
             (*this)(detail::addressof_tag{}),
             (*this)(detail::end_ptr_tag{}),
-            0,
-            sizeof(size_type) + ilist.size());
+            sizeof(size_type),
+            ilist.size());
         assign(std::begin(ilist), std::end(ilist));
     }
 
@@ -3679,8 +3685,8 @@ private:
         SBEPP_SIZE_CHECK(
             (*this)(detail::addressof_tag{}),
             (*this)(detail::end_ptr_tag{}),
-            0,
-            sizeof(size_type) + size());
+            sizeof(size_type),
+            size());
         return data_unchecked();
     }
 
